@@ -11,7 +11,7 @@ SPEC = {
              '-cost_of_produced_parts; sink value == summed value at receipt == value_of_received_parts; '
              'maintainer value == start - cost of started orders; batch value == sum of parts; system net value == '
              'sum over assets; a case is one model; non-trivial = >=3 distinct part values seen and a value '
-             'changed by a callback'),
+             'changed by a callback; also: waiting parts re-priced in place, work-order costs that change with every order, pallets of boxes (nested batches)'),
     'floors': {'quick': {'value_identity_checks': 20000, 'supplies_valued': 2000, 'receipts_valued': 1000,
                          'orders_costed': 100, 'batch_value_checks': 500, 'prestart_pokes': 50},
                'thorough': {'value_identity_checks': 400000, 'supplies_valued': 40000, 'receipts_valued': 20000,
